@@ -239,7 +239,8 @@ func (c *Ctx) guardedMutations(rule string, fn *ssa.Function, construct, what st
 	e := c.accept()
 	f := &fact{id: rule + ":" + construct, what: what, direct: func(c *Ctx, fn *ssa.Function, ce ir.CondEdge) bool {
 		if ce.If == nil {
-			return false
+			// a value handed on as the verdict (return ok): the test itself
+			return isEvidence(ce)
 		}
 		return isEvidence(ce) || boolPhiEvidence(ce, isEvidence)
 	}}
@@ -532,6 +533,23 @@ func (c *Ctx) sameDataChecked(ab *ssa.Function) {
 					}
 				}
 			}
+			// measured inside a helper: the argument the helper is called with here
+			if p, ok := v.(*ssa.Parameter); ok && p.Parent() != ab && depth < 4 {
+				var args []ssa.Value
+				instrsOf(ab, func(j ssa.Instruction) {
+					if call, ok := j.(*ssa.Call); ok && call.Call.StaticCallee() == p.Parent() {
+						as := ir.CallArgs(call)
+						for k, q := range p.Parent().Params {
+							if q == p && k < len(as) {
+								args = append(args, as[k])
+							}
+						}
+					}
+				})
+				if len(args) == 1 {
+					return origin(args[0], depth+1)
+				}
+			}
 			return v
 		}
 		okS, detS := true, ""
@@ -725,6 +743,12 @@ func (c *Ctx) removeContinuesSearchIn(rm *ssa.Function, okp *bool, detp *string)
 		} else if cmp, isB := ce.Cond.(*ssa.BinOp); isB && cmp.Op == token.EQL && ce.Truth {
 			if isGlobalLoad(cmp.Y, sigPkg+".ErrNotFoundSigData") {
 				errv, isSentinel = cmp.X, true
+			}
+		}
+		if !isSentinel {
+			// any failure of the list-level removal (the miss included) goes on with the next list
+			if v, isNil := errIsNil(ce.RawCond, ce.RawTruth); v != nil && !isNil && ce.If != nil {
+				errv, isSentinel = v, true
 			}
 		}
 		if !isSentinel || errv == nil {
